@@ -61,7 +61,9 @@ impl<'r> Gen<'r> {
 
     fn item(&mut self, name: &str, form: Form) -> Item {
         let id = self.id();
-        Item { id, name: name.to_string(), form, r_item: ZERO, r_path: ZERO, r_value: None }
+        // a few lists are written with brackets or braces: the same meta list to syn and to darling
+        let delim = if matches!(form, Form::List(_) | Form::BadList(_)) && self.rng.pct(4) { self.rng.range(1, 2) as u8 } else { 0 };
+        Item { id, name: name.to_string(), form, r_item: ZERO, r_path: ZERO, r_value: None, delim }
     }
 
     fn junk_nested(&mut self) -> Vec<Nested> {
